@@ -747,6 +747,9 @@ func TestVerif_C39(t *testing.T) {
 
 	var rc c39case
 	replay := r.ReplayCase(&rc) && rc.Chain != ""
+	if r.IsReplay() && !replay {
+		return // the replayed case belongs to another unit of C39
+	}
 
 	chs := c39chains()
 	defer func() {
@@ -1062,4 +1065,3 @@ func (e *c39env) group(g []*c39mut, cs c39case) bool {
 	}
 	return true
 }
-
